@@ -81,6 +81,7 @@ type stats struct {
 	mu          sync.Mutex
 	rows        int
 	rowsByForm  map[string]int
+	likeShapes  map[string]int
 	ntRows      int
 	mismatch    int
 	unsupported int
@@ -109,7 +110,7 @@ func main() {
 		os.Exit(0)
 	}
 
-	st := &stats{rowsByForm: map[string]int{}}
+	st := &stats{rowsByForm: map[string]int{}, likeShapes: map[string]int{}}
 	var nontrivial lib.DistinctCounter
 	var distinctStruct lib.DistinctCounter
 	var evals int64
@@ -154,6 +155,7 @@ func main() {
 	}
 	e.Extra("rows_checked", st.rows)
 	e.Extra("rows_by_form", st.rowsByForm)
+	e.Extra("like_rows_by_shape", st.likeShapes)
 	e.Extra("rows_on_transitive_only_edges", st.ntRows)
 	e.Extra("row_mismatches_including_known", st.mismatch)
 	e.Extra("hierarchies", len(cases))
@@ -230,6 +232,9 @@ func judge(e *lib.Env, st *stats, c Case, s Script, res lib.ProcResult) (ntSeen 
 		}
 		nRows++
 		byForm[form]++
+		if form == "lk" {
+			byForm[strings.TrimPrefix(r.Stem, "form=")+r.Tail]++
+		}
 		if r.Nontrivial {
 			nNT++
 			ntSeen = true
@@ -251,7 +256,11 @@ func judge(e *lib.Env, st *stats, c Case, s Script, res lib.ProcResult) (ntSeen 
 	st.mismatch += nMis
 	st.unsupported += nOpen
 	for k, v := range byForm {
-		st.rowsByForm[k] += v
+		if strings.HasPrefix(k, "lk,") {
+			st.likeShapes[k] += v
+		} else {
+			st.rowsByForm[k] += v
+		}
 	}
 	st.mu.Unlock()
 	return
